@@ -110,7 +110,7 @@ PROPS = {
                       "obligations C17_Open J, stated for an ABSTRACT cross-step invariant J (the facts about undo log and kill ring "
                       "that Undo / YankPop need; for RdInv alone the two obligations would be false, so they are not stated that "
                       "way): from RdInv and J, Undo is safe and re-establishes both (for J = the C05 log invariant this is the proved "
-                      "C17_undo_safe_of_log; but that invariant is NOT kept by a vi-mode read: finding D47), the same for YankPop in "
+                      "C17_undo_safe_of_log; before the repair of D47 that invariant was not kept by a vi-mode read), the same for YankPop in "
                       "EMACS mode (no-panic half proved for J = PopOK: C17_yankPop_safe_of_popOK), and every other command and "
                       "every non-command step of the read keeps J. No such J is exhibited: the theorem is a proved reduction of "
                       "'the only panic is D43' to these obligations, not the unconditional statement. "
@@ -681,7 +681,7 @@ PROPS["C05"] = {
                      "scripted helpers are functions of the text (same table on both sides)",
                      "the theorems are about the Changeset model (Rl/Undo.lean) and the three line-buffer primitives Change::undo calls; that the editor model keeps `replayLog undos = line` across whole commands (every LineBuffer call reports exactly what it did: property C03) is checked by the differential run and the oracle, not proved"],
     "unproved": ['C05_abort_transparent_statement'],
-    "level_text": "Lean theorems, for every stack and every notification sequence (no bound), about the undo-log model: the stack is an exact log (replaying it oldest-first reproduces the line after any listener notifications, all three merge rules included: C05_log_replay, C05_log_markers); Begin/End stay balanced under begin / notifications / truncate and end closes all levels (C05_balanced); begin ... truncate(mark) restores stack and level exactly (C05_truncate_restores: the D10 repair); one pass of the undo loop pops exactly one unit - one change or one complete End..Begin group - for every repeat count (C05_undo_unit, also for the model's own loop); Change::undo inverts a recorded change on the line buffer, proved from the LineBuffer definitions (C05_undo_inverts); C05_abort_transparent_statement (kept as a def) is REFUTED in vi mode by kernel evaluation of the editor model (C05_abort_transparent_refuted, C05_D47_abort_leaves_stale_entry, C05_D47_read: finding D47, an aborted search during which insert mode was left keeps a stale Delete entry; the implementation agrees); under the log invariant Undo with any count never panics and leaves the line at the replay of the remaining older log, and an emptied stack means the start text (C05_undo_past_text, C05_undo_to_empty). The editor model is diffed against the real editor on a pty and oracleC05 runs over the implementation's callbacks. Partial: the lifting of the log invariant and of abort transparency to whole editor commands (Ed states) is stated, not proved; D22 (a typed alphanumeric merges into a preceding yank/paste Insert) is recorded as a witness theorem and deliberately not judged by the oracle; Undo keeps the markers balanced (C05_undo_balanced: level = number of unmatched Begin markers after an Undo inside an open group too; D38 repaired) and a change replayed by . closes its own group (D39 repaired).",
+    "level_text": "Lean theorems, for every stack and every notification sequence (no bound), about the undo-log model: the stack is an exact log (replaying it oldest-first reproduces the line after any listener notifications, all three merge rules included: C05_log_replay, C05_log_markers); Begin/End stay balanced under begin / notifications / truncate and end closes all levels (C05_balanced); begin ... truncate(mark) restores stack and level exactly (C05_truncate_restores: the D10 repair); one pass of the undo loop pops exactly one unit - one change or one complete End..Begin group - for every repeat count (C05_undo_unit, also for the model's own loop); Change::undo inverts a recorded change on the line buffer, proved from the LineBuffer definitions (C05_undo_inverts); C05_abort_transparent_statement is kept as a def (not proved; D47 - an aborted search during which vi insert mode was left kept records of its own in the log - is repaired, regression examples by kernel evaluation of the editor model in Props/C05.lean; as written the statement still fails in vi mode for a benign reason, the insert session's open Begin is closed when the session is left; C05_ops_shape is the shape lemma its emacs-mode proof needs); under the log invariant Undo with any count never panics and leaves the line at the replay of the remaining older log, and an emptied stack means the start text (C05_undo_past_text, C05_undo_to_empty). The editor model is diffed against the real editor on a pty and oracleC05 runs over the implementation's callbacks. Partial: the lifting of the log invariant and of abort transparency to whole editor commands (Ed states) is stated, not proved; D22 (a typed alphanumeric merges into a preceding yank/paste Insert) is recorded as a witness theorem and deliberately not judged by the oracle; Undo keeps the markers balanced (C05_undo_balanced: level = number of unmatched Begin markers after an Undo inside an open group too; D38 repaired) and a change replayed by . closes its own group (D39 repaired).",
     "level_note": 'Trusted: Lean kernel; pty harness; the log-level theorems take the notification stream as given (its faithfulness is C03).',
     "assumptions": ["keyseq_timeout = None (default)"],
 }
@@ -715,7 +715,7 @@ PROPS["C01"] = {
                      "the README tables and the byte-encoding table are transcribed by hand into Rl/Spec/Doc.lean",
                      "the oracle stops judging (never guesses) where it cannot follow the key grouping: byte strings outside the documented encodings, completion and vi-mode search sub-loops, input ending inside a group"],
     "unproved": ["C01_self_insert_once_statement: REFUTED as written (it quantifies over helpers whose hinter panics: C01_self_insert_once_counterexample); the theorem C01_self_insert_once holds for every helper whose hinter does not panic"],
-    "level_text": "Lean theorems about the editor model, for every state, pending count and direction: every argument-free entry of the README tables — emacs mode, vi command mode, vi insert mode, each with the all-modes table — is mapped by the model's keymap (emacs / viCommand / viInsert) to the Cmd denoting the documented action resolved with the GNU count/direction conventions, the line untouched (C01_binding_table_emacs, _emacs_common, _vi_command, _vi_insert); for every operator d/c/y and every entry of the motion table viCmdMotion builds the documented movement, the count before the operator multiplied by the count before the motion, f/t/F/T + char remembered, the doubled operator = whole line (C01_vi_operator_motion, _counts, _char_search, _doubled); a custom-bound key yields exactly the bound command in all three keymaps, a bound two-key sequence its command and a non-completing pair none (C01_custom_binding_*, C01_custom_seq_binding, _fallback); the count handed to a command after M-[-]d1..dk is the signed decimal value, first four significant digits (C01_numeric_argument, C01_arg_value_*); a printable character is inserted exactly once at the cursor with any helper whose hinter does not panic (C01_self_insert_once; the unrestricted statement is refuted); no Move command changes the text (C01_motion_pure); C-c / C-d on the empty line / Enter on an accepted text end the read as documented at the step level, at the level of one main-loop iteration, from the decoded key in emacs mode and in the vi modes, and the value of readline is the text of the submitting state (C01_outcome_step, C01_outcome, C01_outcome_emacs_keys, C01_outcome_vi_keys, C01_outcome_readline). The editor model is diffed against the real Editor::readline on a pty, and the documented-meaning oracle (README tables as data, declarative C04 targets) runs on the implementation's callbacks for every generated script. Executing the denoted Cmd has the documented effect (C01_execute_refines_move / _kill / _change / _yank / _insert and the summary C01_execute_refines over the resolved actions): from a state with a well-formed growable line, a kill ring within bounds, a hinter that does not panic, a stable segmenter with the line break a cluster of its own, execute returns with status proceed and the line (text and cursor) is the one Act.apply — the oracle's declarative semantics — prescribes; C01_key_to_effect_emacs / _vi_command / _vi_insert chain the table theorems with it: from the decoded key of a README table to the effect on (text, cursor). `^` as a motion and as a range is covered since the repair of D46. Not covered by these theorems (oracle and C04 only): the BeforeEnd word targets (known finding), case changes (M-u M-l M-c), transpose-chars, vi r; and the cursor claim of a line-wise (dj, dk) or char-search kill that finds nothing to kill (KillCaveat).",
+    "level_text": "Lean theorems about the editor model, for every state, pending count and direction: every argument-free entry of the README tables — emacs mode, vi command mode, vi insert mode, each with the all-modes table — is mapped by the model's keymap (emacs / viCommand / viInsert) to the Cmd denoting the documented action resolved with the GNU count/direction conventions, the line untouched (C01_binding_table_emacs, _emacs_common, _vi_command, _vi_insert); for every operator d/c/y and every entry of the motion table viCmdMotion builds the documented movement, the count before the operator multiplied by the count before the motion, f/t/F/T + char remembered, the doubled operator = whole line (C01_vi_operator_motion, _counts, _char_search, _doubled); a custom-bound key yields exactly the bound command in all three keymaps, a bound two-key sequence its command and a non-completing pair none (C01_custom_binding_*, C01_custom_seq_binding, _fallback); the count handed to a command after M-[-]d1..dk is the signed decimal value, first four significant digits (C01_numeric_argument, C01_arg_value_*); a printable character is inserted exactly once at the cursor with any helper whose hinter does not panic (C01_self_insert_once; the unrestricted statement is refuted); no Move command changes the text (C01_motion_pure); C-c / C-d on the empty line / Enter on an accepted text end the read as documented at the step level, at the level of one main-loop iteration, from the decoded key in emacs mode and in the vi modes, and the value of readline is the text of the submitting state (C01_outcome_step, C01_outcome, C01_outcome_emacs_keys, C01_outcome_vi_keys, C01_outcome_readline). The editor model is diffed against the real Editor::readline on a pty, and the documented-meaning oracle (README tables as data, declarative C04 targets) runs on the implementation's callbacks for every generated script. Executing the denoted Cmd has the documented effect (C01_execute_refines_move / _kill / _change / _yank / _insert and the summary C01_execute_refines over the resolved actions): from a state with a well-formed growable line, a kill ring within bounds, a hinter that does not panic, a stable segmenter with the line break a cluster of its own, execute returns with status proceed and the line (text and cursor) is the one Act.apply — the oracle's declarative semantics — prescribes; C01_key_to_effect_emacs / _vi_command / _vi_insert chain the table theorems with it: from the decoded key of a README table to the effect on (text, cursor). `^` as a motion and as a range is covered since the repair of D46. The kill family has no caveat any more: a kill that leaves the text alone leaves the cursor alone, for every movement (kill_nothing_keeps_cursor). vi r with a count is covered where Act.apply judges it (C01_execute_refines_replace_char under JudgedReplace: n clusters present, n <= 65535, and one cluster back from the end of the inserted copies is the start of the last copy). C01_history_keys: C-p / C-n / M-< / M-> denote the commands whose effect on the store C07 proves (composed with C07_prev/next/first/last_refines_store). Not covered by these theorems (oracle and C04 only): the BeforeEnd word targets (known finding F-C04-vi-e-count), case changes (M-u M-l M-c) and transpose-chars (their declarative results re-segment the edited text; not carried out); Act has no put actions (C-y, p, P are C06's).",
     "level_note": "Trusted: Lean kernel; pty harness; hand transcription of the README tables and byte encodings; the oracle stops judging where it cannot follow the key grouping. Reading decisions: vi C-d on a non-empty line, counts of 0, a minus typed after digits, `^` on a blank line, n-th character search with fewer than n occurrences, `a` with a count are not judged.",
     "assumptions": ["keyseq_timeout = None (default)"],
 }
